@@ -50,6 +50,18 @@ def same(a, b):
     return a == b
 
 
+def where_differs(a, b, path="row"):
+    """first place where same() fails, for the report"""
+    if isinstance(a, dict) and isinstance(b, dict):
+        if a.keys() != b.keys(): return "%s: keys %r vs %r" % (path, sorted(map(repr, a)), sorted(map(repr, b)))
+        for k in a:
+            if not same(a[k], b[k]): return where_differs(a[k], b[k], "%s[%r]" % (path, k))
+    if isinstance(a, (list, tuple)) and type(a) == type(b) and len(a) == len(b):
+        for i, (x, y) in enumerate(zip(a, b)):
+            if not same(x, y): return where_differs(x, y, "%s[%d]" % (path, i))
+    return "%s: %r (%s) vs %r (%s)" % (path, a, type(a).__name__, b, type(b).__name__)
+
+
 class RowsEval:
     """An evaluator that yields exactly the given rows."""
     def __init__(self, rows): self.rows = rows
@@ -122,6 +134,28 @@ def run(ctx):
                 ctx.violation(sig + ":raises", "encode/decode of evaluator rows %r raised %s: %s" % (rows, type(e).__name__, str(e)[:120]), dict(rows=c["rows"], order=order)); break
             if len(got) != len(exp) or not all(same(g, e) for g, e in zip(got, exp)):
                 ctx.violation(sig + ":differs", "rows %r read back as %r, expected %r" % (rows, got, exp), dict(rows=c["rows"], expected=c["expected"], order=order)); break
+    # ---- two triples in one log: what one triple's rows look like must not leak into the other's (columns only one of them
+    #      has are Missing in the other; list/tuple conversion and packing are decided per triple) ----
+    for i in range(0, len(cases) - 1, ctx.pick(2, 1)):
+        ca, cb = cases[i], cases[(i * 7 + 3) % len(cases)]
+        rows_a = [{to_py(k): to_py(v) for k, v in pairs} for pairs in ca["rows"]]; rows_b = [{to_py(k): to_py(v) for k, v in pairs} for pairs in cb["rows"]]
+        ea, eb = expect_rows(ca), expect_rows(cb)
+        allcols = {k for r in ea + eb for k in r}
+        from coba.results.core import Missing      # a column no row of the triple has is Missing (the table's own marker), a field absent from some rows is None
+        want = {0: [dict({k: Missing for k in allcols}, **r) for r in ea], 1: [dict({k: Missing for k in allcols}, **r) for r in eb]}
+        ctx.case("pair" + json.dumps([ca["rows"], cb["rows"]], sort_keys=True))
+        try:
+            lines = list(TransactionEncode(None).filter([["T0", {}], ["T4", (0, 0, 0), rows_a], ["T4", (1, 0, 0), rows_b]]))
+            res = TransactionResult().filter(TransactionDecode().filter(lines))
+            got = {0: [], 1: []}
+            for r in res.interactions.to_dicts():
+                got[r["environment_id"]].append({k: v for k, v in r.items() if k not in ("environment_id", "learner_id", "evaluator_id")})
+        except Exception as e:
+            ctx.violation("codec:two-triples:raises", "encode/decode of two triples' rows %r / %r raised %s: %s" % (rows_a, rows_b, type(e).__name__, str(e)[:120]), dict(rows_a=ca["rows"], rows_b=cb["rows"])); continue
+        for t in (0, 1):
+            if len(got[t]) != len(want[t]) or not all(same(g, e) for g, e in zip(got[t], want[t])):
+                ctx.violation("codec:two-triples:differs", "two triples in one log: rows of triple %d read back as %r, expected %r (the other triple's rows: %r); %s" % (t, got[t], want[t], rows_b if t == 0 else rows_a, where_differs(got[t], want[t])),
+                              dict(rows_a=ca["rows"], rows_b=cb["rows"], triple=t)); break
     # ---- a sample through whole experiments, five ways ----
     d = os.path.join(ctx.scratch, "exp"); os.makedirs(d, exist_ok=True)
     sample = rng.sample(cases, min(len(cases), ctx.pick(120, 1500)))
